@@ -57,7 +57,9 @@ def Series(params: SeriesParams) -> h.Module:
 
     # Create the internal series-connected signals, and concatenate them with the series ports
     # Their name, like that of the unit array, must not be that of a port copied from the unit.
-    i = m.add(h.Signal(name=_unused_name(m, "i"), width=params.nser - 1))
+    # One private net per bit of the series ports, between each pair of neighbouring units
+    width = (params.nser - 1) * series_conns[0].width
+    i = m.add(h.Signal(name=_unused_name(m, "i"), width=width))
     unit_conns[series_conns[0].name] = h.Concat(series_conns[0], i)
     unit_conns[series_conns[1].name] = h.Concat(i, series_conns[1])
 
